@@ -201,8 +201,12 @@ def size_boundary_cases(rng, spec, idx0):
     must come back truncated (TC, record dropped) with a correct 2-octet prefix on stream listeners."""
     out = []
     idx = idx0
-    for target, with_opt in ((65534, 1), (65535, 1), (65536, 1), (65537, 1), (65546, 1), (65534, 0), (65535, 0)):
+    for target, with_opt in ((65534, 1), (65535, 1), (65536, 1), (65537, 1), (65546, 1), (65534, 0), (65535, 0),
+                             (65506, 2), (65507, 2), (65508, 2), (65530, 2)):
         ls = ["tcp"] + rng.sample(["gnet", "tls", "quic", "http-post", "fasthttp-post", "https-post"], 3)
+        if with_opt == 2:
+            # UDP: a client advertising 65535 octets; the largest datagram payload the socket can send is 65507
+            ls, with_opt = ["udp", "udp"], 1
         for l in ls:
             idx += 1
             labels = [b"sz%d" % idx, rng.choice(VOCAB)]
@@ -211,7 +215,7 @@ def size_boundary_cases(rng, spec, idx0):
             question = name + b"\0" + struct.pack(">HH", qtype, qclass)
             q = struct.pack(">HHHHHH", rng.randrange(65536), 0x0100, 1, 0, 0, with_opt) + question
             if with_opt:
-                q += opt_rr(rng, size=rng.choice([512, 1232, 65535]), options=0)
+                q += opt_rr(rng, size=65535 if l == "udp" else rng.choice([512, 1232, 65535]), options=0)
             L = target - 12 - len(question) - 11 - (11 if with_opt else 0)
             reply = struct.pack(">HHHHHH", 0, 0x8180, 1, 1, 0, 0) + question
             reply += b"\0" + struct.pack(">HHIH", 65280, 1, 60, L) + bytes(rng.randrange(256) for _ in range(L))
